@@ -26,6 +26,21 @@ _K2_NOTE = ("Trusted: the rxvc VC generator; z3/cvc5; the spec machines in /veri
             "AutoDetachObserver clause of C01. Counter-models are replayed by a native history runner (bounded).")
 _K2_TECH = "K2 class refinement against a spec machine with the call-out discipline (invariant at every call-out), SMT-discharged"
 
+CHECKS_K1 = {
+    "C06": {
+        "text": "As C05 for the aggregating operators. Operators with their own subscribe (scan, last/first/single_or_default_async, "
+                "to_iterable, extrema_by) are proved against their spec machines handler by handler. Composite operators (reduce, "
+                "last, first, single and their _or_default forms, some, all, contains, is_empty) are proved MODULARLY: each operator "
+                "they pipe through is replaced by its contract (its spec machine behind the C01 wrapper), never by its body, and the "
+                "composite's own spec is shown to be refined by that composition under an invariant coupling the stage states; "
+                "short-circuit timing is part of the per-event clause (emission at the deciding element). Empty-input errors, the "
+                "second-element failure of single and None/falsy defaults are paths/models of the same obligations.",
+        "note": _K1_NOTE + " Not yet under contract (hence not covered by this claim): count, sum, average, min, max, min_by, max_by, "
+                "to_set, to_dict, sequence_equal - listed in DESIGN.md §9 as remaining work. Sums are not modelled numerically.",
+        "technique": "K1 handler refinement + modular composition over callee contracts, SMT (z3 then cvc5); native replay; must-fail mutants",
+    },
+}
+
 _K4_NOTE = ("Trusted: the scope classification in /verif/rxvc/frame.py (which nested function is the subscription function: the one "
             "handed to Observable(...)/defer/create or named subscribe/_subscribe_core) and its list of mutating operations (assignment "
             "through nonlocal, item assignment/deletion, list/dict/set/deque mutators, next(), for over a one-shot iterator, handing a "
@@ -146,3 +161,4 @@ CHECKS = {
         "technique": "K1 handler refinement against spec machines, loop invariants, SMT (z3 then cvc5); native replay of counter-models",
     },
 }
+CHECKS.update(CHECKS_K1)
